@@ -16,6 +16,7 @@ func init() {
 		func(c *Ctx) {
 			c.run("C06-R1", "LITERAL: printer and detector agree on the trigger grammar", c06R1)
 			c.run("C06-R2", "WHO-CALLS/GUARD-DOM: exactly one start per detection; suppression tests precede a trigger", c06R2)
+			c.run("C06-R4", "LITERAL/GUARD-DOM: the trigger's mode letter selects its action", c06Dispatch)
 			c.run("C06-R3", "LITERAL: suppression words are words the code prints", c06R3)
 		})
 }
@@ -311,6 +312,66 @@ func c06R2(c *Ctx) {
 			c.check(hit == nil, p.fn+"/one-start-per-detection", c.ipos(g), "one start per detection", "the handler can be started twice for one detection")
 		})
 		c.check(n == 1, p.fn+"/one-start-site", c.pos(f.Pos()), "exactly one start site", "the pump does not have exactly one start site")
+		// the handler works from the recorded trigger (mode, version, id, port): this detection's trigger is recorded before it starts
+		eachInstr(f, func(in ssa.Instruction) {
+			g, ok := in.(*ssa.Go)
+			if !ok || calleeID(&g.Call) != p.start {
+				return
+			}
+			rec := false
+			eachInstr(f, func(x ssa.Instruction) {
+				st, ok := x.(*ssa.Store)
+				if !ok {
+					return
+				}
+				if nm, _ := fieldAddrName(st.Addr); strings.HasSuffix(nm, ".trigger") && sameValue(st.Val, trig) && domI(st, g) {
+					rec = true
+				}
+			})
+			c.check(rec, p.fn+"/trigger-recorded", c.ipos(g), "the trigger of this detection is recorded before the handler starts", "the handler starts without this detection's trigger being recorded (it would use the previous transfer's mode / version / id, or nil)")
+		})
+	}
+	// the client's answer to a trigger: "confirm" only after this transfer was installed as the one active transfer,
+	// "decline" only when the user cancelled the file dialog
+	for _, name := range []string{"TrzszFilter.downloadFiles", "TrzszFilter.uploadFiles"} {
+		f := c.fn(name)
+		var cas *ssa.Call
+		for _, ci := range callsIn(f, anyID) {
+			if isAtomicOnField(ci, "transfer", "CompareAndSwap") && isNilConst(ci.Common().Args[1]) {
+				cas, _ = ci.(*ssa.Call)
+			}
+		}
+		if cas == nil {
+			c.bad(name+"/one-active-transfer", c.pos(f.Pos()), "the transfer is no longer installed by compare-and-swap from nil")
+			continue
+		}
+		for _, ci := range callsIn(f, idIs(tT+"sendAction")) {
+			confirm, isC := constBool(ci.Common().Args[1])
+			if !isC {
+				c.bad(name+"/answer", c.ipos(ci), "the answer to the trigger is not a constant confirm / decline")
+				continue
+			}
+			fs := factsAt(ci.Block())
+			if confirm {
+				won := false
+				for _, fc := range fs {
+					if fc.V == ssa.Value(cas) && fc.Pol {
+						won = true
+					}
+				}
+				c.check(won, name+"/confirm-only-as-the-one-transfer", c.ipos(ci), "the transfer is confirmed only on the edge where it became the one active transfer", "a transfer can be confirmed although another one is active (or only when installing it failed)")
+			} else {
+				cancelled := factCmp(fs, token.EQL, anyValue, func(v ssa.Value) bool {
+					u, ok := strip(v).(*ssa.UnOp)
+					if !ok {
+						return false
+					}
+					g, isG := u.X.(*ssa.Global)
+					return isG && g.Name() == "errUserCanceled"
+				})
+				c.check(cancelled, name+"/decline-only-on-cancel", c.ipos(ci), "the transfer is declined only when the user cancelled the dialog", "the transfer is declined on the wrong edge of the user-cancelled test")
+			}
+		}
 	}
 	// starts elsewhere
 	for _, f := range c.AllFns {
@@ -423,5 +484,49 @@ func c06R3(c *Ctx) {
 			}
 		}
 		c.check(where != "", "word/"+w, "", "suppression word "+w+" is a prefix of "+where, "suppression word "+w+" is not printed by any code path: finished transfers would no longer be recognised")
+	}
+}
+
+// c06Dispatch: the mode letter of the trigger selects the action: S -> download, R -> upload files, D -> upload a directory;
+// the letters are exactly those the trigger grammar admits.
+func c06Dispatch(c *Ctx) {
+	f := c.fn("TrzszFilter.handleTrzsz$1")
+	modeIs := func(k int64, val bool) assumption {
+		return assumption{val: val, cmp: func(op token.Token, x, y ssa.Value) (bool, bool) {
+			if (op != token.EQL && op != token.NEQ) || !isFieldLoad("mode")(x) || !isConstIntV(k)(y) {
+				return false, false
+			}
+			return true, op == token.EQL
+		}}
+	}
+	type want struct {
+		letter   byte
+		callee   string
+		dirArg   int // -1: none, 0: false, 1: true
+	}
+	wants := []want{{'S', "(*trzsz.TrzszFilter).downloadFiles", -1}, {'R', "(*trzsz.TrzszFilter).uploadFiles", 0}, {'D', "(*trzsz.TrzszFilter).uploadFiles", 1}}
+	for _, w := range wants {
+		var as []assumption
+		for _, o := range wants {
+			as = append(as, modeIs(int64(o.letter), o.letter == w.letter))
+		}
+		reach := blocksUnder(f, as)
+		n, good := 0, true
+		for _, ci := range callsIn(f, idIs("(*trzsz.TrzszFilter).downloadFiles", "(*trzsz.TrzszFilter).uploadFiles")) {
+			if !reach[ci.Block()] {
+				continue
+			}
+			n++
+			if calleeID(ci.Common()) != w.callee {
+				good = false
+			}
+			if w.dirArg >= 0 {
+				b, isC := constBool(ci.Common().Args[2])
+				if !isC || b != (w.dirArg == 1) {
+					good = false
+				}
+			}
+		}
+		c.check(good && n == 1, "handleTrzsz/mode="+string(rune(w.letter)), c.pos(f.Pos()), "this mode letter runs exactly its action", "the mode letter '"+string(rune(w.letter))+"' does not run exactly its action (download for S, upload for R, directory upload for D)")
 	}
 }
